@@ -176,7 +176,7 @@ class Worker(threading.Thread):
             self.pre = {1: cls.get(1), 2: cls.get(2)}
         return sorted(self.pre)
 
-    def do_orm_view(self, skip):
+    def do_orm_view(self, skip, keep=False):
         """what the ORM shows on the restored connection: the instances held from before the call, and a fresh get"""
         from sqlobject import SQLObjectNotFound
         cls = self.e['cls']
@@ -197,7 +197,8 @@ class Worker(threading.Thread):
                 fresh[k] = None
             except Exception as ex:
                 fresh[k] = 'error:%s' % type(ex).__name__
-        self.pre = {}
+        if not keep:
+            self.pre = {}
         return held, fresh
 
     def do_run(self, steps, raise_at, exc_obj):
@@ -767,6 +768,73 @@ def overlapping_calls(ctx, e):
                                 desc, outs[0] if outs is not None else None, ' | '.join(seen))
 
 
+def chained_runs(ctx, e):
+    """several doInTransaction calls in a row while the program keeps its instances of rows 1 and 2 across ALL of them:
+    after every call the kept instances (and a fresh get) show the committed rows on the restored connection"""
+    caller = e['workers'][1]
+    plans = [[('u1', None), ('u1', None), ('u1', None)],
+             [('u1', None), ('u2', None), ('u1', None), ('u2', None)],
+             [('u1', None), ('u1', 'E'), ('u1', None)],
+             [('u2', None), ('u1', 'K'), ('u1', None), ('d1', None), ('c1', None), ('u1', None)]]
+    n = 0
+    for cfg in CONFIGS:
+        for mode in ('get', 'select'):
+            for pi, plan in enumerate(plans):
+                n += 1
+                ac, acv = AUTOCOMMITS[n % 3]
+                configure(e, cfg, acv)
+                e['configured'] = None
+                reset_db(e)
+                for c in e['conns']:
+                    c.autoCommit = True
+                caller.call('preload', mode)
+                rows = dict(INITIAL)
+                desc = {'chain': [list(x) for x in plan], 'cfg': cfg, 'ac': ac, 'cache': e['variant'][0], 'declared': e['variant'][1],
+                        'preloaded_by': mode}
+                for i, (sym, raises) in enumerate(plan):
+                    for c in e['conns']:
+                        c.autoCommit = acv
+                    steps = concrete_steps((sym,))
+                    steps = [(op, k, v + 10 * (i + 1)) for (op, k, v) in steps]
+                    exc_obj = None if raises is None else (BodyError if raises == 'E' else BodyAbort)('chain %d' % n)
+                    res = caller.call('run', steps, len(steps) if raises else None, exc_obj)
+                    caller.call('collect')
+                    want, want_exc, _ = reference_from(rows, steps, len(steps) if raises else None)
+                    if want_exc is None:
+                        rows = want
+                    raw = raw_rows(e)
+                    for c in e['conns']:
+                        c.autoCommit = True
+                    held, fresh = caller.call('orm_view', [], True)
+                    key = 'C08:chain:%s:ac%s:cache%s:%s:plan%d:run%d' % (cfg, ac, e['variant'][0], mode, pi, i + 1)
+                    ctx.case(key, sample={'case': desc, 'run': i + 1, 'held': held, 'rows': fmt_rows(raw)}, kind='chained calls')
+                    if raw != rows:
+                        ctx.oracle_fail(key + ':rows', 'after call %d of the chain the committed rows are%s, expected%s'
+                                        % (i + 1, fmt_rows(raw), fmt_rows(rows)), desc)
+                    for k, v in sorted(held.items()):
+                        if v != raw.get(k):
+                            ctx.oracle_fail(key + ':orm-stale-held', 'after call %d of the chain the instance of row %d kept from before '
+                                            'the first call shows %s on the restored connection; the row holds %s'
+                                            % (i + 1, k, v, raw.get(k)), desc)
+                    for k, v in sorted(fresh.items()):
+                        if v != raw.get(k):
+                            ctx.oracle_fail(key + ':orm-stale-fresh', 'after call %d of the chain get(%d) shows %s; the row holds %s'
+                                            % (i + 1, k, v, raw.get(k)), desc)
+                caller.pre = {}
+
+
+def reference_from(rows, steps, raise_at):
+    """the dict reference of `reference`, started from given rows"""
+    saved = dict(INITIAL)
+    try:
+        INITIAL.clear()
+        INITIAL.update(rows)
+        return reference(steps, raise_at, 'E', 0)
+    finally:
+        INITIAL.clear()
+        INITIAL.update(saved)
+
+
 def line_for(case, idx):
     cfg, ac, mode, word, ra, kind, var = case
     steps = concrete_steps(word)
@@ -785,6 +853,7 @@ def run(ctx):
         select_variant(e, *var)
         repeated_calls(ctx, e)
         overlapping_calls(ctx, e)
+        chained_runs(ctx, e)
 
 
 def replay(case):
@@ -809,6 +878,10 @@ def replay(case):
             self.fails.append('%s: %s' % (key, what))
     d = Dummy()
     select_variant(e, case.get('cache', '1'), case.get('declared', 'e'))
+    if case.get('chain'):
+        chained_runs(d, e)
+        mine = [f for f in d.fails if ':%s:' % case['cfg'] in f and ':%s:' % case['preloaded_by'] in f]
+        return not mine, '\n'.join(mine) or 'property holds on this case'
     if case.get('overlap'):
         overlapping_calls(d, e)
         want = '-'.join(case['overlap'])
